@@ -1078,6 +1078,20 @@ func scenarios(rec *vcommon.Rec) []*scenario {
 			add(scenario{Kind: "end", Carrier: c, Mode: m})
 		}
 	}
+	// logical connections for an offered channel whose target cannot be reached (refused port, missing socket, a
+	// target that is down for a while). Appended last: the seeds of the scenarios above stay what they were.
+	if rec.Thorough() {
+		for _, c := range carriers {
+			for _, m := range []string{"dead-target-tcp", "dead-target-unix", "flapping-target"} {
+				add(scenario{Kind: "growth", Carrier: c, Mode: m, N1: n1, N2: n2})
+			}
+		}
+	} else {
+		add(scenario{Kind: "growth", Carrier: "tcp", Mode: "dead-target-tcp", N1: n1, N2: n2})
+		add(scenario{Kind: "growth", Carrier: "ws", Mode: "dead-target-unix", N1: n1, N2: n2})
+		add(scenario{Kind: "growth", Carrier: "udp", Mode: "dead-target-tcp", N1: n1, N2: n2})
+		add(scenario{Kind: "growth", Carrier: "tcp+starttls", Mode: "flapping-target", N1: n1, N2: n2})
+	}
 	return out
 }
 
@@ -1095,6 +1109,8 @@ func TestVerifC14(t *testing.T) {
 			runAbortedHandshakes(rec, sc)
 		} else if sc.Kind == "growth" && strings.HasPrefix(sc.Mode, "forwarded-") {
 			runForwarded(rec, sc)
+		} else if sc.Kind == "growth" && (strings.HasPrefix(sc.Mode, "dead-target-") || sc.Mode == "flapping-target") {
+			runDeadTarget(rec, sc)
 		} else if sc.Kind == "growth" {
 			runGrowth(rec, sc)
 		} else {
